@@ -58,6 +58,7 @@ func TestRaced(t *testing.T) {
 	for i := 0; i < n; i++ {
 		c := gen.Example(int(pb.Seed("raced")%1000003) + i)
 		js, _ := json.Marshal(c)
+		restoreProcs, procsClass := pb.FlipProcs(js)
 		if cur != "" {
 			os.WriteFile(cur, wrapReplay("synclist_raced", js), 0o644)
 		}
@@ -84,6 +85,8 @@ func TestRaced(t *testing.T) {
 				t.Fatalf("raced program %s: %v", js, err)
 			}
 		}
+		restoreProcs()
+		rec.ClassIf(procsClass != "", procsClass)
 		st.Case(js, rec)
 	}
 }
@@ -312,6 +315,7 @@ func TestRacedLoops(t *testing.T) {
 	for i := 0; i < n; i++ {
 		c := gen.Example(int(pb.Seed("loops")%1000003) + i)
 		js, _ := json.Marshal(c)
+		restoreProcs, procsClass := pb.FlipProcs(js)
 		if cur := os.Getenv("VERIF_CURRENT_CASE"); cur != "" {
 			os.WriteFile(cur, wrapReplay("synclist_raced_loops", js), 0o644)
 		}
@@ -331,6 +335,8 @@ func TestRacedLoops(t *testing.T) {
 		rec.NonTrivialIf(c.Producers >= 2 && c.Consumers >= 2)
 		rec.ClassIf(c.Producers >= 2 && c.Consumers >= 2, "MPMC")
 		rec.ClassIf(c.Tokens, "zero-size element type (struct{}), counted tokens")
+		restoreProcs()
+		rec.ClassIf(procsClass != "", procsClass)
 		st.Case(js, rec)
 	}
 }
